@@ -1525,44 +1525,44 @@ Proof.
   assert (Ecp : q_compl q1 p = absEntry false (ansF A p)).
   { rewrite Ec, (Scompl p). unfold DkgQualFacts.complained. unfold p. rewrite Nat.eqb_refl. fold p. rewrite OA. reflexivity. }
   unfold build_complaint. fold p. rewrite Ecp.
+  assert (Hcase : v_vArecv (q_v q) = true \/ v_vArecv (q_v q) = false) by (destruct (v_vArecv (q_v q)); auto).
   destruct (ansF A p) as [z'|] eqn:Ez'; cbn [absEntry c_recv c_ans c_val].
   - (* an unsolicited answer is already stored *)
-    destruct (v_vArecv (q_v q1)) eqn:Er1.
-    + pose proof Er as Er'. symmetry in Er'.
-      destruct (vecF_valid A q S P Er') as (l & Ev & Evo & Eyq).
+    rewrite Er. destruct Hcase as [Er'|Er']; rewrite Er'.
+    + destruct (vecF_valid A q S P Er') as (l & Ev & Evo & Eyq).
       set (a := fixpoly (c_t cf) l) in *.
       assert (Ey1 : v_y (q_v q1) = Some (pubkeys cf a)) by (rewrite Ey; exact Eyq).
       rewrite (verify_share_pub (q_v q1) a Ey1). rewrite andb_false_r.
       cbn [q_v qset_compl]. rewrite (check_complaint_pub (q_v q1) a p z' Ey1 Hp).
       rewrite Evo in PB.
-      destruct (z' =? peval a (Z.of_nat p + 1)) eqn:Ez2; cbn [negb] in *.
+      destruct (z' =? peval a (Z.of_nat p + 1)) eqn:Ez2; cbn [negb] in PB |- *.
       * split; intro Hq'; [|cbn in Hq'; discriminate Hq'].
         split; [|exact PB]. apply oc_SA; cbn; auto.
-        all: try (intro c; rewrite Ec; reflexivity).
+        all: try (intro c; rewrite Ec, ?Ez'; reflexivity).
         all: try (intros a' Ea'; rewrite Evo in Ea'; inversion Ea'; subst a'; left; apply Z.eqb_eq; exact Ez2).
+        all: try (intros _ z Ez; rewrite Ez' in Ez; inversion Ez; reflexivity).
         all: try (intros _ z Ez; inversion Ez; reflexivity).
       * split; intro Hq'; [cbn in Hq'; discriminate Hq'|]. exact PB.
     + cbn [andb]. cbn [q_disq qset_compl]. rewrite Ed.
-      pose proof Er as Er'. symmetry in Er'.
       destruct (vecF_none A q S Er') as [Ev Evo]. rewrite Evo in PB.
       split; intro Hq'; [|cbn in Hq'; rewrite Ed in Hq'; discriminate Hq'].
       split; [|exact PB]. apply oc_SA; cbn; auto.
-      all: try (intro c; rewrite Ec; reflexivity).
+      all: try (intro c; rewrite Ec, ?Ez'; reflexivity).
       all: try (intros a' Ea'; rewrite Evo in Ea'; discriminate Ea').
-      all: try (intros _ z Ez; inversion Ez; reflexivity).
+      all: try (intros _ z Ez; rewrite Ez' in Ez; inversion Ez; reflexivity).
   - assert (PB' : Phi B = false) by (rewrite PB; destruct (vecOk A); reflexivity).
     assert (Hnp : (v_vArecv (q_v q1) && v_xrecv (q_v q1) &&
                    match verify_share cf (q_v q1) with Some _ => false | None => true end) = false).
-    { destruct (v_vArecv (q_v q1)) eqn:Er1; [|reflexivity].
-      pose proof Er as Er'. symmetry in Er'.
+    { rewrite Er. destruct Hcase as [Er'|Er']; rewrite Er'; [|reflexivity].
       destruct (vecF_valid A q S P Er') as (l & Ev & Evo & Eyq).
       assert (Ey1 : v_y (q_v q1) = Some (pubkeys cf (fixpoly (c_t cf) l))) by (rewrite Ey; exact Eyq).
       rewrite (verify_share_pub (q_v q1) _ Ey1). apply andb_false_r. }
     rewrite Hnp.
     split; intro Hq'; [|cbn in Hq'; rewrite Ed in Hq'; discriminate Hq'].
     split; [|exact PB']. apply oc_SA; cbn; auto.
-    all: try (intro c; rewrite Ec; reflexivity).
-    all: try (intros _ z Ez; discriminate Ez).
+    all: try (intro c; rewrite Ec, ?Ez'; reflexivity).
+    all: try (intros _ z Ez; rewrite Ez' in Ez; discriminate Ez).
+    all: try (intros a' Ea'; right; exact Ez').
 Qed.
 
 End OwnComplaint.
@@ -1721,6 +1721,185 @@ Proof.
   - destruct (vecF_none A q S Er) as [Ev Evo]. rewrite Evo in OB, PB. cbn.
     split; intro Hq'; [|cbn in Hq'; rewrite Hq in Hq'; discriminate Hq'].
     split; [|exact PB]. apply SAq; auto. intros a' Ea'. rewrite Evo in Ea'. discriminate Ea'.
+Qed.
+
+(* ---------------- ForceDisqualify ---------------- *)
+Lemma step_force A q j :
+  q_disq q = false -> StateAbs A q -> Phi A = false ->
+  Refines (A ++ [(nph A, IForce j)]) (fst (istep q (IForce j))).
+Proof.
+  intros Hq S P. unfold istep. cbn [call_of qual_step qs_run qs_q]. unfold q_force. cbn [negb].
+  rewrite in_range_of_nat, Nat2Z.id.
+  destruct (Nat.ltb_spec j n) as [Hj|Hj]; cbn [negb].
+  2:{ cbn. apply (refines_same A); auto. apply same_facts_irrelevant; auto.
+      destruct (Nat.eqb_spec j d) as [->|]; [unfold n in Hj; lia|reflexivity]. }
+  destruct (Nat.eqb_spec j d) as [->|Hjd]; cbn.
+  - split; intro Hq'; [discriminate Hq'|]. apply Phi_of_forced. rewrite forced_app, Nat.eqb_refl. apply orb_true_r.
+  - apply (refines_same A); auto. apply same_facts_irrelevant; auto. apply Nat.eqb_neq. exact Hjd.
+Qed.
+
+(* ---------------- NextTimeout ---------------- *)
+Section Timeout.
+Variable A : alist.
+Let B := A ++ [(nph A, ITimeout)].
+
+Lemma to_vecF : vecF B = vecF A.
+Proof. unfold B. rewrite vecF_app. destruct (vecF A); reflexivity. Qed.
+Lemma to_shF : shF B = shF A.
+Proof. unfold B. rewrite shF_app. destruct (shF A); reflexivity. Qed.
+Lemma to_ansF c : ansF B c = ansF A c.
+Proof. unfold B. rewrite ansF_app. cbn. destruct (ansF A c); reflexivity. Qed.
+Lemma to_ansEarly c : ansEarly B c = ansEarly A c.
+Proof. unfold B. rewrite ansEarly_app. cbn. rewrite orb_false_r. reflexivity. Qed.
+Lemma to_fatal : fatal B = fatal A.
+Proof. unfold B. rewrite fatal_app. cbn. rewrite orb_false_r. reflexivity. Qed.
+Lemma to_forced : forced B = forced A.
+Proof. unfold B. rewrite forced_app, orb_false_r. reflexivity. Qed.
+Lemma to_compF c : compF B c = compF A c.
+Proof. unfold B. rewrite compF_app. cbn. rewrite orb_false_r. reflexivity. Qed.
+Lemma to_vecOk : vecOk B = vecOk A.
+Proof. apply same_vecOk. apply to_vecF. Qed.
+
+Lemma to_nph : nph B = Nat.min 2 (S (nph A)).
+Proof.
+  unfold B. rewrite nph_app. cbn [is_timeout]. unfold nph.
+  set (k := length (filter (fun kx => is_timeout (snd kx)) A)). lia.
+Qed.
+
+Lemma to_same_at_2 : nph A = 2%nat -> same_facts A B.
+Proof.
+  intro H. unfold same_facts.
+  split; [symmetry; apply to_vecF|]. split; [symmetry; apply to_shF|].
+  split; [intro c; symmetry; apply to_ansF|]. split; [intro c; symmetry; apply to_ansEarly|].
+  split; [symmetry; apply to_fatal|]. split; [intro c; symmetry; apply to_compF|].
+  split; [symmetry; apply to_forced|]. rewrite to_nph, H. reflexivity.
+Qed.
+
+(* the own complaint only looks at the number of timeouts when no share came *)
+Lemma to_ownc_keep : (1 <= nph A)%nat \/ shF A <> None -> ownc B = ownc A.
+Proof.
+  intro H. unfold DkgQualFacts.ownc. rewrite to_shF, to_vecOk. destruct (shF A) as [m|] eqn:Es; [reflexivity|].
+  destruct H as [H|H]; [|congruence]. rewrite to_nph.
+  assert (E1 : Nat.leb 1 (nph A) = true) by (apply Nat.leb_le; exact H).
+  assert (E2 : Nat.leb 1 (Nat.min 2 (S (nph A))) = true) by (apply Nat.leb_le; lia).
+  rewrite E1, E2. reflexivity.
+Qed.
+
+Lemma to_complained_keep c : (1 <= nph A)%nat \/ shF A <> None -> complained B c = complained A c.
+Proof. intro H. unfold DkgQualFacts.complained. rewrite (to_ownc_keep H), to_compF. reflexivity. Qed.
+
+End Timeout.
+
+Lemma Phi_timeout A :
+  let B := A ++ [(nph A, ITimeout)] in
+  Phi A = false -> (forall c, complained B c = complained A c) ->
+  Phi B = noVec d B || tooMany cf d B.
+Proof.
+  intros B P Hc. destruct (Phi_false_inv A P) as (P1 & P2 & P3 & P4 & P5 & P6 & P7).
+  unfold DkgQualFacts.Phi. unfold B at 1 2. rewrite to_forced, to_fatal, P1, P2.
+  rewrite (badFirst_same A B (to_ansF A)), P3.
+  assert (E4 : badVec d B = false) by (unfold badVec, B; rewrite to_vecF; exact P4).
+  assert (E7 : wrongAns cf d B = false).
+  { rewrite <- P7. unfold wrongAns, B. rewrite to_vecOk. destruct (vecOk A); [|reflexivity].
+    apply existsb_ext'. intro c. fold B. rewrite Hc. unfold B. rewrite to_ansF. reflexivity. }
+  rewrite E4, E7. cbn [orb]. rewrite orb_false_r. reflexivity.
+Qed.
+
+Lemma ncompl_nkeys A q :
+  StateAbs A q -> (nph A < 2)%nat ->
+  ncompl cf (q_compl q) = length (filter (fun c => complained A c || ansEarly A c) (seq 0 (c_n cf))).
+Proof.
+  intros S Hn. unfold ncompl. f_equal. apply filter_ext'. intro c.
+  rewrite (sa_compl _ _ S c), (sa_early _ _ S Hn c).
+  destruct (complained A c), (ansF A c); reflexivity.
+Qed.
+
+Lemma step_timeout A q :
+  q_disq q = false -> StateAbs A q -> Phi A = false ->
+  Refines (A ++ [(nph A, ITimeout)]) (fst (istep q ITimeout)).
+Proof.
+  intros Hq S P. unfold istep. cbn [call_of qual_step qs_run qs_q]. unfold q_next_timeout. cbn [negb].
+  pose proof S as [Sst Sct Svr Svok Svnone Sxr Scompl Searly Sx Sx0 Sx1].
+  set (B := A ++ [(nph A, ITimeout)]).
+  pose proof (nph_le2 A) as Hle.
+  destruct (q_ct q) eqn:Ect.
+  { cbn. symmetry in Sct. apply Nat.leb_le in Sct.
+    apply (refines_same A); auto. apply to_same_at_2. lia. }
+  symmetry in Sct. apply Nat.leb_gt in Sct.
+  rewrite Hq. destruct (q_st q) eqn:Est; cbn [negb].
+  - (* the complaints timeout *)
+    symmetry in Sst. apply Nat.leb_le in Sst.
+    assert (Hn1 : nph A = 1%nat) by lia.
+    pose proof (to_nph A) as NB. fold B in NB. rewrite Hn1 in NB. cbn in NB.
+    assert (Hc : forall c, complained B c = complained A c).
+    { intro c. apply to_complained_keep. left. lia. }
+    pose proof (Phi_timeout A P Hc) as PB. fold B in PB.
+    assert (ENV : noVec d B = false).
+    { destruct (Phi_false_inv A P) as (_ & _ & _ & _ & P5 & _). unfold noVec in *. unfold B. rewrite to_vecF. fold B.
+      rewrite NB. rewrite Hn1 in P5. exact P5. }
+    assert (EK : nkeys cf d B = ncompl cf (q_compl q)).
+    { rewrite (ncompl_nkeys A q S Sct). unfold nkeys. f_equal. apply filter_ext'. intro c. unfold keyF.
+      rewrite Hc. unfold B. rewrite to_ansEarly. reflexivity. }
+    assert (ETM : tooMany cf d B = Nat.ltb (c_t cf) (ncompl cf (q_compl q))).
+    { unfold tooMany. rewrite NB, EK. reflexivity. }
+    rewrite ENV, ETM in PB. cbn [orb] in PB.
+    unfold set_complaints_timeout. cbn [q_compl qset_ct].
+    assert (SB : forall q', q_st q' = q_st q -> q_ct q' = true -> q_v q' = q_v q -> q_compl q' = q_compl q -> StateAbs B q').
+    { intros q' F1 F2 F3 F4.
+      refine (mkSA _ _ _ _ _ _ _ _ _ _ _ _ _); unfold B; rewrite ?to_vecF, ?to_vecOk, ?to_shF, ?F1, ?F2, ?F3, ?F4; fold B; rewrite ?NB; auto.
+      all: try (rewrite Est; reflexivity).
+      all: try (intro c; rewrite Hc; unfold B; rewrite to_ansF; apply Scompl).
+      all: try (intro Hn; lia).
+      all: try (intros a Ea _; rewrite Hc; unfold B; rewrite to_ansF; apply Sx; auto; right; lia).
+      all: try (intros Hv Hcm z Ez; rewrite Hc in Hcm; unfold B in Ez; rewrite to_ansF in Ez; apply Sx0; auto). }
+    destruct (Nat.ltb (c_t cf) (ncompl cf (q_compl q))) eqn:Et; cbn.
+    + split; intro Hq'; [discriminate Hq'|]. exact PB.
+    + split; intro Hq'; [|cbn in Hq'; rewrite Hq in Hq'; discriminate Hq'].
+      split; [|exact PB]. apply SB; auto.
+  - (* the shares timeout *)
+    symmetry in Sst. apply Nat.leb_gt in Sst.
+    assert (Hn0 : nph A = 0%nat) by lia.
+    pose proof (to_nph A) as NB. fold B in NB. rewrite Hn0 in NB. cbn in NB.
+    rewrite istep_lift. unfold set_shares_timeout. cbn [q_v qset_st negb].
+    destruct (v_vArecv (q_v q)) eqn:Er; cbn [negb].
+    2:{ (* no vector: disqualified *)
+        destruct (vecF_none A q S Er) as [Ev Evo].
+        split; intro Hq'; [discriminate Hq'|]. apply Phi_of_noVec. unfold noVec, B. rewrite to_vecF. fold B. rewrite NB, Ev. reflexivity. }
+    destruct (vecF_valid A q S P Er) as (l & Ev & Evo & Ey).
+    assert (ENV : noVec d B = false) by (unfold noVec, B; rewrite to_vecF, Ev; apply andb_false_r).
+    destruct (v_xrecv (q_v q)) eqn:Ex; cbn [negb].
+    + (* vector and share are there *)
+      rewrite Sxr in Ex. destruct (shF A) as [m|] eqn:Es; [|discriminate].
+      assert (Hc : forall c, complained B c = complained A c).
+      { intro c. apply to_complained_keep. right. congruence. }
+      pose proof (Phi_timeout A P Hc) as PB. fold B in PB. rewrite ENV in PB.
+      assert (ETM : tooMany cf d B = false) by (unfold tooMany; rewrite NB; reflexivity).
+      rewrite ETM in PB.
+      split; intro Hq'; [|cbn in Hq'; rewrite Hq in Hq'; discriminate Hq'].
+      split; [|exact PB].
+      refine (mkSA _ _ _ _ _ _ _ _ _ _ _ _ _); unfold B; rewrite ?to_vecF, ?to_vecOk, ?to_shF; fold B; rewrite ?NB; cbn; auto.
+      all: try (rewrite Er; exact Svr).
+      all: try (rewrite Es; exact Ex).
+      all: try (intro c; rewrite Hc; unfold B; rewrite to_ansF; apply Scompl).
+      all: try (intros _ c; unfold B; rewrite to_ansEarly, to_ansF; apply Searly; lia).
+      all: try (intros a Ea _; rewrite Hc; unfold B; rewrite to_ansF; apply Sx; auto; left; rewrite Es; reflexivity).
+      all: try (intros Hv Hcm z Ez; rewrite Hc in Hcm; unfold B in Ez; rewrite to_ansF in Ez; apply Sx0; auto).
+    + (* no share: the own complaint *)
+      rewrite Sxr in Ex. destruct (shF A) as [m|] eqn:Es; [discriminate|].
+      assert (OA : ownc A = false) by (unfold DkgQualFacts.ownc; rewrite Es, Hn0; reflexivity).
+      assert (OB : ownc B = true).
+      { unfold DkgQualFacts.ownc, B. rewrite to_shF, to_vecOk, Es, Evo. fold B. rewrite NB. reflexivity. }
+      pose proof (own_complaint_refines A B q (qset_st q true) S P Hq (to_vecF A) (to_ansF A) (to_ansEarly A)
+                    (to_fatal A) (to_forced A) (to_compF A) OA OB) as HB.
+      destruct (build_complaint cf d (qset_st q true)) as [[q' ev]|].
+      * apply HB; cbn; auto; try lia.
+        -- rewrite NB. reflexivity.
+        -- unfold B. rewrite to_shF, Es. symmetry. exact Ex.
+        -- intros _ z Esb. unfold B in Esb. rewrite to_shF, Es in Esb. discriminate Esb.
+      * exfalso. apply HB; cbn; auto; try lia.
+        -- rewrite NB. reflexivity.
+        -- unfold B. rewrite to_shF, Es. symmetry. exact Ex.
+        -- intros _ z Esb. unfold B in Esb. rewrite to_shF, Es in Esb. discriminate Esb.
 Qed.
 
 End Refine.
